@@ -130,6 +130,8 @@ def assemble(unit, meta, extra_lemmas=None):
         emit(prelude.generate_mx())
     if unit == "F64":
         emit(prelude.generate_fp())
+    if unit != "F64" and unit != "Derivative" and "__" not in unit:
+        emit(prelude.generate_fmt(unit in VECTOR_UNITS))
     if unit in VECTOR_UNITS:
         emit("\n// ===== Derivative: contracts only (external_body stubs); the bodies are verified in unit Derivative =====\n")
         emit(open(os.path.join(GEN, "Derivative.iface.rs")).read())
@@ -354,7 +356,7 @@ def classify(uf, root_res, nl_res, can_res):
             for msg, labelled, rendered in fl:
                 if UNDECIDED_PAT.search(msg):
                     obs.append(Obligation(uf.unit, "exec", it.name, "undecided", rendered, exec_props(it.info)))
-                elif "postcondition" in msg and it.info.get("manual") and it.info.get("ty") == "Derivative":
+                elif "postcondition" in msg and it.info.get("manual") and (it.info.get("ty") == "Derivative" or it.info.get("trait") == "Display"):
                     # hand-written contract taken from the property (dense-view semantics): a real violation
                     obs.append(Obligation(uf.unit, "contract", it.name, "failed", rendered, exec_props(it.info), it.info.get("what") or "dense-view contract"))
                 elif "postcondition" in msg:
@@ -405,6 +407,8 @@ def exec_props0(f):
         return ["C11"]
     if f.get("trait") in ("PartialEq", "PartialOrd"):
         return ["C06"]
+    if f.get("trait") == "Display":
+        return ["C18"]
     n = f["name"]
     tr = f.get("trait")
     if f.get("ty") == "Derivative":
